@@ -100,6 +100,30 @@ func sendsIndex(p *Prog) map[*types.Func]map[string]bool {
 	return ix
 }
 
+// nodeSendsTraceDirect: the node itself contains the Send call (no call-transitivity); used where
+// send SITES are counted.
+func nodeSendsTraceDirect(in *types.Info, n ast.Node, names ...string) (string, bool) {
+	if n == nil {
+		return "", false
+	}
+	if _, isGo := n.(*ast.GoStmt); isGo {
+		return "", false
+	}
+	for _, call := range callsIn(n) {
+		if t, ok := sentTraceType(in, call); ok {
+			if len(names) == 0 {
+				return t, true
+			}
+			for _, nm := range names {
+				if t == nm {
+					return t, true
+				}
+			}
+		}
+	}
+	return "", false
+}
+
 // nodeSendsTrace: CFG node n sends a trace (of one of the named types, if any are given) — directly,
 // or through a statically called same-package function that may send it.
 func nodeSendsTrace(in *types.Info, n ast.Node, names ...string) (string, bool) {
